@@ -130,6 +130,8 @@ var c17JobPool = map[string]*jobSpec{
 	// a name that differs from "ja" in letter case only is another job
 	"JA": {Name: "JA", Path: "/upper"},
 	"jd": {Name: "jd", Rules: []relRule{{Action: "keep", Source: []string{"env"}, Regex: "prod|v2|"}}},
+	// a job whose CA file cannot be read: the scrape manager has no client for it, discovery and explorer track it
+	"je": {Name: "je", Scheme: "https", CAFile: "/nonexistent/kvass-verif/ca.crt"},
 }
 
 // c17Variant returns the configuration of a job: "ja" is the base variant, "ja#1" the same job with
@@ -593,7 +595,7 @@ func runC17(rec *vkit.Recorder, c *c17Case) []vkit.Violation {
 
 func genC17(t *rapid.T) *c17Case {
 	// configured in an order that is not the sorted one (job lookups must not rely on order)
-	all := []string{"jc", "ja", "JA", "jd", "jb"}
+	all := []string{"jc", "ja", "JA", "je", "jd", "jb"}
 	subset := func(label string) []string {
 		var out []string
 		for _, j := range rapid.Permutation(all).Draw(t, label+"-order") {
